@@ -95,9 +95,13 @@ func (p *predictor) predictSig(st step) string {
 
 func (p *predictor) apply(st step) {
 	switch st.Kind {
-	case kPADI:
+	case kPADI, kPADIFlood:
 		p.needPADI[st.Src] = false
-	case kPADR:
+	case kPADR, kPADRCopy:
+		// every PADR that carries an AC-Cookie tag is answered with a new session (a copied tag area always has one)
+		if st.Kind == kPADR && st.Tags.Cookie == ckAbsent {
+			break
+		}
 		p.n++
 		p.sess = append(p.sess, &psess{id: p.n, owner: st.Src, alive: true})
 	case kCleanup:
@@ -108,7 +112,7 @@ func (p *predictor) apply(st step) {
 		}
 	}
 	s := p.get(st.SID)
-	if s == nil || !(st.Kind.isSession() || st.Kind == kPADT) || s.owner != st.Src {
+	if s == nil || !st.Kind.hasSID() || s.owner != st.Src {
 		return
 	}
 	switch st.Kind {
@@ -120,7 +124,7 @@ func (p *predictor) apply(st step) {
 			s.stage = 1
 		}
 	case kLCPAck:
-		if s.stage == 1 {
+		if s.stage <= 1 {
 			s.stage = 2
 		}
 	case kPAP:
@@ -156,6 +160,88 @@ var (
 	preAuthKinds = []frameKind{kIPCPReqZero, kIPCPReqAddr, kIPCPReqDNS, kIPCPReqPlain, kIPCPAck, kIP}
 )
 
+var (
+	// what an ordinary client puts into its PADI / PADR: most hosts use a small process id, so the SAME value from
+	// different peers is the common case, not the exception
+	genClientHU = rapid.SampledFrom([]int{huShared1, huShared1, huShared1, huShared1, huLegacy, huLegacy, huShared2, huAbsent, huEmpty, huLong})
+	genAnyHU    = rapid.SampledFrom([]int{huShared1, huShared1, huShared2, huOfSession, huOfSession, huLegacy, huAbsent, huEmpty, huLong})
+	genSvc      = rapid.SampledFrom([]int{svcAny, svcAny, svcAny, svcConfigured, svcConfigured, svcOther, svcAbsent})
+	genCookie   = rapid.SampledFrom([]int{ckOwn, ckOwn, ckOwn, ckOther, ckOther, ckStale, ckStale, ckAbsent, ckMadeUp, ckEmpty})
+	genRelay    = rapid.SampledFrom([]int{relayAbsent, relayAbsent, relayAbsent, relayAbsent, relayShared, relayShared, relayOther})
+)
+
+// anyTags: discovery tags from the whole shared alphabet; sessions referenced are live ones where there are any.
+func anyTags(rt *rapid.T, live []*psess) discTags {
+	d := discTags{HU: genAnyHU.Draw(rt, "hu"), Svc: genSvc.Draw(rt, "svc"), Cookie: genCookie.Draw(rt, "cookie"),
+		Relay: genRelay.Draw(rt, "relay"), Peer: rapid.IntRange(0, 3).Draw(rt, "cookiePeer")}
+	if d.HU == huOfSession {
+		d.Ref = 1
+		if len(live) > 0 {
+			d.Ref = rapid.SampledFrom(live).Draw(rt, "huRef").id
+		}
+	}
+	return d
+}
+
+// discoveryStep draws one discovery-stage step: aimed at a live session through its tags where there is one
+// (from a MAC that does not own it, or the owner's own retransmission), otherwise - and a quarter of the time
+// anyway - anything over the shared tag alphabet from anybody.
+func (p *predictor) discoveryStep(rt *rapid.T) step {
+	live := p.live()
+	d := rapid.IntRange(0, 99).Draw(rt, "disc")
+	if len(live) == 0 {
+		d = 76 + d%24
+	}
+	var st step
+	// the session aimed at: more often than not the one that got furthest (so that Authentication, IPCP
+	// Negotiation and Established sessions are hit as often as fresh ones), else any live one
+	pick := func(label string) *psess {
+		if rapid.IntRange(0, 9).Draw(rt, label+"Far") < 6 {
+			best := live[0]
+			for _, s := range live {
+				if s.stage > best.stage {
+					best = s
+				}
+			}
+			return best
+		}
+		return rapid.SampledFrom(live).Draw(rt, label)
+	}
+	switch {
+	case d < 22: // PADR from another MAC with the Host-Uniq of the victim's session
+		v := pick("victim")
+		st = step{Kind: kPADR, Src: (v.owner + rapid.IntRange(1, 3).Draw(rt, "other")) % 4,
+			Tags: discTags{HU: huOfSession, Ref: v.id, Peer: v.owner, Svc: genSvc.Draw(rt, "svc"),
+				Cookie: rapid.SampledFrom([]int{ckOwn, ckOwn, ckOther, ckOther, ckStale, ckMadeUp}).Draw(rt, "cookie")}}
+	case d < 36: // PADR from another MAC re-using every tag of the victim's PADR
+		v := pick("victim")
+		st = step{Kind: kPADRCopy, Src: (v.owner + rapid.IntRange(1, 3).Draw(rt, "other")) % 4, SID: v.id}
+	case d < 54: // the owner retransmits the PADR of its session, whatever state that session is in by now
+		v := pick("sess")
+		st = step{Kind: kPADRCopy, Src: v.owner, SID: v.id}
+	case d < 68: // PADI from another MAC with the Host-Uniq of the victim's session
+		v := pick("victim")
+		st = step{Kind: kPADI, Src: (v.owner + rapid.IntRange(1, 3).Draw(rt, "other")) % 4,
+			Tags: discTags{HU: huOfSession, Ref: v.id, Svc: genSvc.Draw(rt, "svc"), Relay: genRelay.Draw(rt, "relay")}}
+	case d < 76: // PADI flood
+		v := pick("victim")
+		st = step{Kind: kPADIFlood, Src: rapid.IntRange(0, 3).Draw(rt, "src"), SID: v.id, Variant: rapid.IntRange(8, 64).Draw(rt, "flood")}
+	case d < 80:
+		st = step{Kind: kPADIFlood, Src: rapid.IntRange(0, 3).Draw(rt, "src"), SID: 1, Variant: rapid.IntRange(8, 64).Draw(rt, "flood")}
+	default: // anything from anybody
+		st = step{Kind: rapid.SampledFrom([]frameKind{kPADI, kPADR, kPADR, kPADR, kPADRNoCookie, kPADT}).Draw(rt, "kind"), Src: rapid.IntRange(0, 3).Draw(rt, "src")}
+		if st.Kind == kPADT {
+			if len(live) > 0 {
+				st.SID = rapid.SampledFrom(live).Draw(rt, "sess").id
+			}
+		} else if rapid.IntRange(0, 4).Draw(rt, "legacyTags") > 0 {
+			st.Tags = anyTags(rt, live)
+		}
+	}
+	fill(rt, &st)
+	return st
+}
+
 func fill(rt *rapid.T, st *step) {
 	st.Ident = byte(rapid.IntRange(1, 250).Draw(rt, "ident"))
 	switch st.Kind {
@@ -183,25 +269,30 @@ func (p *predictor) progress(rt *rapid.T, peer int) step {
 		}
 	}
 	if mine == nil {
-		if p.needPADI[peer] {
-			st := step{Kind: kPADI, Src: peer}
-			fill(rt, &st)
-			return st
-		}
+		// an ordinary client: PADI then PADR, Host-Uniq mostly a value other hosts use as well
 		st := step{Kind: kPADR, Src: peer}
+		if p.needPADI[peer] {
+			st.Kind = kPADI
+		}
+		st.Tags.HU = genClientHU.Draw(rt, "clientHU")
+		if st.Tags.HU != huLegacy {
+			st.Tags.Svc = rapid.SampledFrom([]int{svcAny, svcAny, svcConfigured}).Draw(rt, "clientSvc")
+			st.Tags.Cookie = ckOwn
+		}
 		fill(rt, &st)
 		return st
 	}
 	st := step{Src: peer, SID: mine.id}
 	switch mine.stage {
 	case 0:
-		st.Kind = kLCPReq
+		// a third of the clients answer the server's Configure-Request before sending their own
+		st.Kind = rapid.SampledFrom([]frameKind{kLCPReq, kLCPReq, kLCPAck}).Draw(rt, "lcp0")
 	case 1:
 		st.Kind = kLCPAck
 	case 2:
 		st.Kind = kPAP
 	case 3:
-		st.Kind = rapid.SampledFrom([]frameKind{kIPCPReqZero, kIPCPReqZero, kIPCPReqDNS}).Draw(rt, "ipcp0")
+		st.Kind = rapid.SampledFrom([]frameKind{kIPCPReqZero, kIPCPReqZero, kIPCPReqDNS, kIPCPAck}).Draw(rt, "ipcp0")
 	case 4:
 		st.Kind = kIPCPReqAddr
 	case 5:
@@ -216,7 +307,10 @@ func (p *predictor) progress(rt *rapid.T, peer int) step {
 	return st
 }
 
-func genCase(rt *rapid.T, modes []radMode) (caseSpec, bool) {
+func genCase(rt *rapid.T, modes []radMode) (caseSpec, bool) { return genCaseW(rt, modes, false) }
+
+// genCaseW: discHeavy shifts the weight from session-stage frames to discovery-stage ones (TestPropHistoryDiscovery).
+func genCaseW(rt *rapid.T, modes []radMode, discHeavy bool) (caseSpec, bool) {
 	spec := caseSpec{
 		Radius:   rapid.SampledFrom(modes).Draw(rt, "radiusMode"),
 		DNS:      rapid.Bool().Draw(rt, "dns"),
@@ -231,14 +325,42 @@ func genCase(rt *rapid.T, modes []radMode) (caseSpec, bool) {
 	// rapid favours small integers: take the larger of two draws so that long histories are common
 	n := max(rapid.IntRange(1, 30).Draw(rt, "steps"), rapid.IntRange(1, 30).Draw(rt, "steps2"))
 	genPeer := rapid.SampledFrom([]int{0, 0, 0, 1, 1, 2})
+	if discHeavy && rapid.Bool().Draw(rt, "scenario") {
+		// scenario opening: one client opens a session and walks it to a state drawn uniformly from LCP
+		// Negotiation / Authentication / IPCP Negotiation / Established by the shortest dialogue the server
+		// accepts; then a discovery-stage step (collision from another MAC, or the owner's retransmission)
+		// meets it in exactly that state.  The random history continues from there.
+		v := genPeer.Draw(rt, "scenarioPeer")
+		open := []step{p.progress(rt, v)}
+		p.apply(open[0])
+		open = append(open, p.progress(rt, v))
+		p.apply(open[1])
+		sid := p.n
+		for _, k := range []frameKind{kLCPAck, kPAP, kIPCPAck}[:rapid.IntRange(0, 3).Draw(rt, "scenarioState")] {
+			st := step{Kind: k, Src: v, SID: sid}
+			fill(rt, &st)
+			st.Radius = radAccept
+			p.apply(st)
+			open = append(open, st)
+		}
+		st := step{Kind: kPADRCopy, Src: v, SID: sid} // the owner's own retransmission ...
+		if rapid.IntRange(0, 9).Draw(rt, "scenarioStep") >= 4 {
+			st = p.discoveryStep(rt) // ... or any discovery-stage step, mostly aimed at this session
+		}
+		p.apply(st)
+		spec.Steps = append(spec.Steps, append(open, st)...)
+	}
 	for i := 0; i < n; i++ {
 		var st step
 		live := p.live()
 		w := rapid.IntRange(0, 99).Draw(rt, "action")
+		if discHeavy && w >= 46 && w < 78 && w%4 != 0 { // three quarters of the session-stage share goes to discovery
+			w = 80
+		}
 		switch {
-		case w < 50 || len(live) == 0 && w < 90:
+		case w < 46 || len(live) == 0 && w < 86:
 			st = p.progress(rt, genPeer.Draw(rt, "peer"))
-		case w < 64: // any session frame, any source, mostly a live session
+		case w < 60: // any session frame, any source, mostly a live session
 			st = step{Kind: rapid.SampledFrom(sessKinds).Draw(rt, "kind"), Src: rapid.IntRange(0, 3).Draw(rt, "src")}
 			if len(live) > 0 && rapid.IntRange(0, 4).Draw(rt, "liveSid") > 0 {
 				st.SID = rapid.SampledFrom(live).Draw(rt, "sess").id
@@ -246,21 +368,17 @@ func genCase(rt *rapid.T, modes []radMode) (caseSpec, bool) {
 				st.SID = uint16(rapid.SampledFrom([]int{0, 1, 2, 7, 0xffff}).Draw(rt, "sid"))
 			}
 			fill(rt, &st)
-		case w < 78: // a frame for a live session from a MAC that does not own it
+		case w < 72: // a frame for a live session from a MAC that does not own it
 			s := rapid.SampledFrom(live).Draw(rt, "victim")
 			src := (s.owner + rapid.IntRange(1, 3).Draw(rt, "other")) % 4
 			st = step{Kind: rapid.SampledFrom(attackKinds).Draw(rt, "kind"), Src: src, SID: s.id}
 			fill(rt, &st)
-		case w < 88: // owner sends IP-layer frames on its own session (before or after authentication)
+		case w < 80: // owner sends IP-layer frames on its own session (before or after authentication)
 			s := rapid.SampledFrom(live).Draw(rt, "sess")
 			st = step{Kind: rapid.SampledFrom(preAuthKinds).Draw(rt, "kind"), Src: s.owner, SID: s.id}
 			fill(rt, &st)
-		case w < 98: // discovery from anybody
-			st = step{Kind: rapid.SampledFrom([]frameKind{kPADI, kPADR, kPADR, kPADRNoCookie, kPADT}).Draw(rt, "kind"), Src: rapid.IntRange(0, 3).Draw(rt, "src")}
-			if st.Kind == kPADT && len(live) > 0 {
-				st.SID = rapid.SampledFrom(live).Draw(rt, "sess").id
-			}
-			fill(rt, &st)
+		case w < 98: // discovery stage: collisions with live sessions, retransmissions, floods, anything from anybody
+			st = p.discoveryStep(rt)
 		default:
 			st = step{Kind: kCleanup, Sleep: rapid.SampledFrom([]time.Duration{30 * time.Second, 6 * time.Minute}).Draw(rt, "sleep")}
 		}
@@ -354,6 +472,26 @@ func TestPropHistoryNoRadius(t *testing.T) {
 func TestPropHistoryRadius(t *testing.T) {
 	vstat.Checks(2500, 40000)
 	propHistory(t, "radius", []radMode{radLive, radLive, radDeadThenLive})
+}
+
+// TestPropHistoryDiscovery: the same histories with the weight on the DISCOVERY stage - PADI / PADR whose tags
+// (Host-Uniq, AC-Cookie, Service-Name, Relay-Session-Id) come from an alphabet shared by all peers or are copied
+// from another peer's PADR, the owner's own PADR retransmissions in every session state, PADI floods - interleaved
+// with the orderly dialogues, so that the auth-gate clauses are decided on whatever session results.
+func TestPropHistoryDiscovery(t *testing.T) {
+	vstat.Checks(3000, 40000)
+	rs := scriptedRadius(t)
+	rapid.Check(t, func(rt *rapid.T) {
+		spec, allow := genCaseW(rt, []radMode{radNone, radNone, radLive, radDeadThenLive}, true)
+		res := runInBubble(t, spec, rs)
+		extra := []string{"gen:discovery-heavy"}
+		if allow {
+			extra = append(extra, "gen:findings-allowed")
+		} else {
+			extra = append(extra, "gen:steered-around-listed")
+		}
+		report(rt, "discovery", spec, res, extra...)
+	})
 }
 
 // TestPropHistoryRadiusDown: the only RADIUS server is unreachable (closed port):
